@@ -444,6 +444,16 @@ def check_refs(ctx, w):
     tr = expr.assign_trace(g.node, genv)
     ctx.ob('E-i', g.construct, 'unit = get_CU_containing(refaddr) when not given', rets == ['get_DIE_from_refaddr(cu,refaddr)'] and
            tr.get('cu') == [('=', 'get_CU_containing(self,refaddr)')], got=(rets, tr.get('cu')))
+    # section-relative references: the unit whose extent [cu_offset, cu_offset + size) contains the target (shared with C13)
+    h = w.model.func(DI, 'DWARFInfo.get_CU_containing')
+    henv = expr.FEnv(h.node, params=('refaddr',), inline=False)
+    tests = [n for n in ast.walk(h.node) if isinstance(n, ast.If)]
+    eq = False
+    if tests:
+        eq, cex, n = expr.tt_equiv(expr.cond_tt(tests[0].test, henv), expr.spec_tt('cu_offset <= refaddr < cu_offset + size'))
+    ctx.ob('E-i', h.construct, 'unit found iff cu_offset <= refaddr < cu_offset + size (size includes the initial length field)', eq,
+           msg='a section-relative reference into the last bytes of a unit must still resolve to that unit')
+    ctx.ob('E-i', h.construct, 'extent uses the unit size property', 'cu.cu_offset + cu.size' in ast.unparse(h.node))
     for mod, cls, off, dof in ((CU, 'CompileUnit', 'cu_offset', 'cu_die_offset'), (TU, 'TypeUnit', 'tu_offset', 'tu_die_offset')):
         g = w.model.func(mod, cls + '.get_DIE_from_refaddr')
         genv = expr.FEnv(g.node, params=('refaddr',))
